@@ -237,10 +237,7 @@ func (srv *Session) handleCommand(ctx context.Context, conn net.Conn, t types.Cl
 		// https://github.com/postgres/postgres/blob/6e1dd2773eb60a6ab87b27b8d9391b756e904ac3/src/backend/tcop/postgres.c#L4295
 		return nil
 	case types.ClientClose:
-		// TODO: close the statement or portal
-		writer.Start(types.ServerCloseComplete) //nolint:errcheck
-		writer.End()                            //nolint:errcheck
-		return nil
+		return srv.handleClose(ctx, reader, writer)
 	case types.ClientTerminate:
 		err := srv.handleConnTerminate(ctx)
 		if err != nil {
@@ -590,6 +587,44 @@ func (srv *Session) handleExecute(ctx context.Context, reader *buffer.Reader, wr
 	}
 
 	return nil
+}
+
+// handleClose closes the prepared statement or portal with the given name. It
+// is not an error to close a name that does not exist.
+func (srv *Session) handleClose(ctx context.Context, reader *buffer.Reader, writer *buffer.Writer) error {
+	d, err := reader.GetBytes(1)
+	if err != nil {
+		return err
+	}
+
+	name, err := reader.GetString()
+	if err != nil {
+		return err
+	}
+
+	srv.logger.Debug("incoming close request", slog.String("type", types.DescribeMessage(d[0]).String()), slog.String("name", name))
+
+	var cache any
+	switch types.DescribeMessage(d[0]) {
+	case types.DescribeStatement:
+		cache = srv.Statements
+	case types.DescribePortal:
+		cache = srv.Portals
+	default:
+		return srv.extendedError(writer, fmt.Errorf("unknown close command: %q", d[0]))
+	}
+
+	// NOTE: closing is optional for custom caches to stay compatible with
+	// existing implementations of the cache interfaces.
+	if closer, ok := cache.(CacheCloser); ok {
+		err = closer.Close(ctx, name)
+		if err != nil {
+			return srv.extendedError(writer, err)
+		}
+	}
+
+	writer.Start(types.ServerCloseComplete)
+	return writer.End()
 }
 
 func (srv *Session) handleConnTerminate(ctx context.Context) error {
